@@ -24,7 +24,7 @@ open Hist
 
 /-- positions of `shutdown()` (its `start` included) -/
 def CPc.shutPos : CPc → Bool
-  | .start .shutdown | .shutCas => true
+  | .start .shutdown | .shutCas | .send .shutdown => true
   | pc => pc.afterCas
 
 /-- the ways the tail of `put_or_update` ends, with the weight it sends -/
@@ -360,6 +360,256 @@ theorem clientAct_cact {b b' : BState} {i : Nat} {o o' : Oracle} (h : clientAct 
     | shutAfClear => exact .shut _ _ hpc rfl
     | shutStatsClear => exact .shut _ _ hpc rfl
     | shutTtlClear => exact .shut _ _ hpc rfl
+
+
+/-! ## 2  sums -/
+
+/-- the sum of `f` over the client positions -/
+def lsum (f : CPc → Int) : List CPc → Int
+  | [] => 0
+  | pc :: l => f pc + lsum f l
+
+theorem lsum_set (f : CPc → Int) : ∀ (l : List CPc) (i : Nat) (pc pc' : CPc), l[i]? = some pc →
+    lsum f (l.set i pc') = lsum f l - f pc + f pc'
+  | [], i, pc, pc', h => by simp at h
+  | x :: l, 0, pc, pc', h => by
+    simp only [List.getElem?_cons_zero, Option.some.injEq] at h
+    subst h
+    simp only [List.set_cons_zero, lsum]
+    omega
+  | x :: l, i + 1, pc, pc', h => by
+    simp only [List.getElem?_cons_succ] at h
+    simp only [List.set_cons_succ, lsum, lsum_set f l i pc pc' h]
+    omega
+
+theorem lsum_replicate (f : CPc → Int) (pc : CPc) (hf : f pc = 0) : ∀ n, lsum f (List.replicate n pc) = 0
+  | 0 => rfl
+  | n + 1 => by simp [List.replicate_succ, lsum, hf, lsum_replicate f pc hf n]
+
+/-- `β 0 + … + β (n - 1)` -/
+def sumTo (β : Nat → Int) : Nat → Int
+  | 0 => 0
+  | n + 1 => sumTo β n + β n
+
+/-- `β` with `d` added at `a` -/
+def bump (β : Nat → Int) (a : Nat) (d : Int) : Nat → Int := fun x => if x = a then β x + d else β x
+
+theorem sumTo_bump_ge (β : Nat → Int) (a : Nat) (d : Int) : ∀ n, n ≤ a → sumTo (bump β a d) n = sumTo β n
+  | 0, _ => rfl
+  | n + 1, h => by
+    have hne : n ≠ a := by omega
+    simp only [sumTo, sumTo_bump_ge β a d n (by omega), bump, hne, if_false]
+
+theorem sumTo_bump_lt (β : Nat → Int) (a : Nat) (d : Int) : ∀ n, a < n → sumTo (bump β a d) n = sumTo β n + d
+  | 0, h => by omega
+  | n + 1, h => by
+    by_cases hn : n = a
+    · subst hn
+      simp only [sumTo, sumTo_bump_ge β n d n (Nat.le_refl _), bump, if_true]
+      omega
+    · simp only [sumTo, sumTo_bump_lt β a d n (by omega), bump, hn, if_false]
+      omega
+
+theorem bump_ge {β : Nat → Int} {a : Nat} {d : Int} (hd : 0 ≤ d) (x : Nat) : β x ≤ bump β a d x := by
+  unfold bump; split <;> omega
+
+theorem bump_self (β : Nat → Int) (a : Nat) (d : Int) : bump β a d a = β a + d := by simp [bump]
+
+theorem sumTo_nonneg {β : Nat → Int} (hβ : ∀ x, 0 ≤ β x) : ∀ n, 0 ≤ sumTo β n
+  | 0 => Int.le_refl _
+  | n + 1 => by have := sumTo_nonneg hβ n; have := hβ n; simp only [sumTo]; omega
+
+/-- the budgets of pairwise distinct ids below `n` sum to at most `sumTo β n` -/
+theorem sum_map_le_sumTo : ∀ (l : List Nat) (β : Nat → Int) (n : Nat), (∀ x, 0 ≤ β x) → l.Nodup → (∀ x ∈ l, x < n) →
+    (l.map β).sum ≤ sumTo β n
+  | [], β, n, hβ, _, _ => by simpa using sumTo_nonneg hβ n
+  | a :: l, β, n, hβ, hnd, hlt => by
+    have ha : a < n := hlt a List.mem_cons_self
+    obtain ⟨hal, hnd'⟩ := List.nodup_cons.mp hnd
+    have hβ' : ∀ x, 0 ≤ bump β a (- β a) x := by
+      intro x; unfold bump; split
+      · rename_i hx; subst hx; omega
+      · exact hβ x
+    have ih := sum_map_le_sumTo l (bump β a (- β a)) n hβ' hnd' (fun x hx => hlt x (List.mem_cons_of_mem _ hx))
+    have hmap : l.map (bump β a (- β a)) = l.map β := by
+      apply List.map_congr_left
+      intro x hx
+      have : x ≠ a := fun e => hal (e ▸ hx)
+      simp [bump, this]
+    rw [hmap, sumTo_bump_lt β a _ n ha] at ih
+    simp only [List.map_cons, List.sum_cons]
+    omega
+
+/-! ## 3  no `shutdown()` was ever requested -/
+
+/-- nobody stands inside `shutdown()`, no `Shutdown` command waits, the worker is not draining, the flag is not set -/
+structure NoShut (b : BState) : Prop where
+  flag : b.g.shutting = false
+  cl : ∀ (i : Nat) (pc : CPc), b.cl[i]? = some pc → pc.shutPos = false
+  queue : ∀ p ∈ b.g.queue, p.1 ≠ .shutdown
+  w : b.w ≠ .drain
+
+
+/-- every action of Layer B, thread by thread -/
+inductive BAct (b : BState) : Act → BState → Prop where
+  | issue (i : Nat) (r : Req) : b.cl[i]? = some .idle → BAct b (.issue i r) (setClient b i (.start r))
+  | client (i : Nat) (b' : BState) : CAct b i b' → BAct b (.client i) b'
+  | worker (b' : BState) : WTrans b b' → BAct b .worker b'
+  | sweeper (v : Option Nat) (b' : BState) : STrans b b' → BAct b (.sweeper v) b'
+  | consumer (g' : State) : g' = { b.g with bufq := g'.bufq, lfu := g'.lfu, consumerAlive := g'.consumerAlive } →
+      BAct b .consumer { b with g := g' }
+  | advance (d : Nat) : BAct b (.advance d) { b with g := { b.g with now := b.g.now + d } }
+
+theorem stepB_bact {b b' : BState} {a : Act} {o o' : Oracle} (h : stepB b a o = .ok (b', o')) : BAct b a b' := by
+  cases a with
+  | issue i r =>
+    simp only [stepB] at h
+    split at h
+    · rename_i b1 hi
+      simp only [Except.ok.injEq, Prod.mk.injEq] at h; obtain ⟨rfl, rfl⟩ := h
+      unfold issue at hi
+      split at hi
+      · rename_i hidle
+        simp only [Except.ok.injEq] at hi; subst hi
+        exact .issue i r hidle
+      · cases hi
+    · cases h
+  | client i => exact .client i _ (clientAct_cact h)
+  | worker => exact .worker _ (workerAct_trans h)
+  | sweeper v =>
+    simp only [stepB] at h
+    split at h
+    · rename_i b1 hs
+      simp only [Except.ok.injEq, Prod.mk.injEq] at h; obtain ⟨rfl, rfl⟩ := h
+      exact .sweeper v _ (sweeperAct_trans hs)
+    · cases h
+  | consumer =>
+    simp only [stepB] at h
+    split at h
+    · rename_i g' out o1 hc
+      simp only [Except.ok.injEq, Prod.mk.injEq] at h; obtain ⟨rfl, rfl⟩ := h
+      exact .consumer g' (consumerStep_frame hc)
+    · cases h
+  | advance d =>
+    simp only [stepB, Except.ok.injEq, Prod.mk.injEq] at h; obtain ⟨rfl, rfl⟩ := h
+    exact .advance d
+
+theorem getElem?_set_cases {cl : List CPc} {i j : Nat} {x pc : CPc} (h : (cl.set i x)[j]? = some pc) :
+    (j = i ∧ pc = x) ∨ (j ≠ i ∧ cl[j]? = some pc) := by
+  by_cases hj : j = i
+  · subst hj; exact Or.inl ⟨rfl, pc_of_set h⟩
+  · rw [List.getElem?_set_ne (Ne.symm hj)] at h; exact Or.inr ⟨hj, h⟩
+
+/-- the shape of the state after a client action: the client's new position, everything a client action never touches -/
+structure CFrame (b b' : BState) (i : Nat) (pc' : CPc) : Prop where
+  cl : b'.cl = b.cl.set i pc'
+  w : b'.w = b.w
+  sw : b'.sw = b.sw
+  cfg : b'.g.cfg = b.g.cfg
+  now : b'.g.now = b.g.now
+  adm : b'.g.adm = b.g.adm
+  shutting : b'.g.shutting = b.g.shutting
+  worker : b'.g.worker = b.g.worker
+
+theorem cframe_upAfterIndex {b b0 : BState} {i id : Nat} {uw : Option Int} (hcl : b0.cl = b.cl) (hw : b0.w = b.w)
+    (hsw : b0.sw = b.sw) (hcfg : b0.g.cfg = b.g.cfg) (hnow : b0.g.now = b.g.now) (hadm : b0.g.adm = b.g.adm)
+    (hsh : b0.g.shutting = b.g.shutting) (hwk : b0.g.worker = b.g.worker) :
+    ∃ pc', CFrame b (upAfterIndex b0 i id uw) i pc' ∧
+      (pc' = .idle ∨ ∃ w, uw = some w ∧ 0 < w ∧ pc' = .send (.updateWeight id w)) := by
+  rcases upAfterIndex_cases b0 i id uw with ⟨p, w, _, e⟩ | ⟨w, hu, hpos, e⟩ | ⟨_, e⟩ <;> rw [e]
+  · exact ⟨.idle, ⟨by simp [finishCall, hcl], hw, hsw, hcfg, hnow, hadm, hsh, hwk⟩, Or.inl rfl⟩
+  · exact ⟨_, ⟨by simp [setClient, hcl], hw, hsw, hcfg, hnow, hadm, hsh, hwk⟩, Or.inr ⟨w, hu, hpos, rfl⟩⟩
+  · exact ⟨.idle, ⟨by simp [spotFinish, finishCall, hcl], hw, hsw, hcfg, hnow, hadm, hsh, hwk⟩, Or.inl rfl⟩
+
+theorem cframe_mgetNext {b b0 : BState} {i : Nat} {ks : List Nat} {acc : List (Option Nat)} {iter : Bool}
+    (hcl : b0.cl = b.cl) (hw : b0.w = b.w)
+    (hsw : b0.sw = b.sw) (hcfg : b0.g.cfg = b.g.cfg) (hnow : b0.g.now = b.g.now) (hadm : b0.g.adm = b.g.adm)
+    (hsh : b0.g.shutting = b.g.shutting) (hwk : b0.g.worker = b.g.worker) :
+    ∃ pc', CFrame b (mgetNext b0 i ks acc iter) i pc' ∧
+      (pc' = .idle ∨ ∃ k rest, pc' = .mgetStore k rest acc iter) := by
+  rcases mgetNext_spec b0 i ks acc iter with ⟨out, e⟩ | ⟨k, rest, _, _, e⟩ <;> rw [e]
+  · exact ⟨.idle, ⟨by simp [finishCall, hcl], hw, hsw, hcfg, hnow, hadm, hsh, hwk⟩, Or.inl rfl⟩
+  · exact ⟨_, ⟨by simp [setClient, hcl], hw, hsw, hcfg, hnow, hadm, hsh, hwk⟩, Or.inr ⟨k, rest, rfl⟩⟩
+
+
+/-- what a client action does to the command queue, the acknowledgement cells and the key-id counter -/
+inductive QEff (b b' : BState) (pc : CPc) : Prop where
+  | none : b'.g.queue = b.g.queue → b'.g.acks = b.g.acks → b'.g.nextId = b.g.nextId → QEff b b' pc
+  | spot (st : Status) : b'.g.queue = b.g.queue → b'.g.acks = b.g.acks ++ [st] → b'.g.nextId = b.g.nextId → QEff b b' pc
+  | send (cmd : Cmd) : pc = .send cmd → b.g.worker ≠ .dead → b'.g.queue = b.g.queue ++ [(cmd, some b.g.acks.length)] →
+      b'.g.acks = b.g.acks ++ [.pending] → b'.g.nextId = b.g.nextId → QEff b b' pc
+  | idNext (k v : Nat) (w : Int) (ttl : Option Nat) : pc = .idNext k v w ttl → b'.g.queue = b.g.queue →
+      b'.g.acks = b.g.acks → b'.g.nextId = b.g.nextId + 1 → QEff b b' pc
+
+theorem qeff_upAfterIndex {b b0 : BState} {i id : Nat} {uw : Option Int} {pc : CPc} (hq : b0.g.queue = b.g.queue)
+    (ha : b0.g.acks = b.g.acks) (hn : b0.g.nextId = b.g.nextId) : QEff b (upAfterIndex b0 i id uw) pc := by
+  rcases upAfterIndex_cases b0 i id uw with ⟨p, w, _, e⟩ | ⟨w, hu, hpos, e⟩ | ⟨_, e⟩ <;> rw [e]
+  · exact .none hq ha hn
+  · exact .none hq ha hn
+  · exact .spot .accepted hq (by simp [spotFinish, finishCall, ha]) hn
+
+theorem qeff_mgetNext {b b0 : BState} {i : Nat} {ks : List Nat} {acc : List (Option Nat)} {iter : Bool} {pc : CPc}
+    (hq : b0.g.queue = b.g.queue) (ha : b0.g.acks = b.g.acks) (hn : b0.g.nextId = b.g.nextId) :
+    QEff b (mgetNext b0 i ks acc iter) pc := by
+  rcases mgetNext_spec b0 i ks acc iter with ⟨out, e⟩ | ⟨k, rest, _, _, e⟩ <;> rw [e]
+  · exact .none hq ha hn
+  · exact .none hq ha hn
+
+theorem pool_fields {g g1 : State} (hg : g1 = { g with pool := g1.pool, bufq := g1.bufq, stats := g1.stats }) :
+    g1.cfg = g.cfg ∧ g1.now = g.now ∧ g1.adm = g.adm ∧ g1.shutting = g.shutting ∧ g1.worker = g.worker ∧
+    g1.queue = g.queue ∧ g1.acks = g.acks ∧ g1.nextId = g.nextId ∧ g1.store = g.store ∧ g1.ttl = g.ttl := by
+  refine ⟨?_, ?_, ?_, ?_, ?_, ?_, ?_, ?_, ?_, ?_⟩ <;> rw [hg]
+
+/-- **one client action outside `shutdown()`**: the client's old and new position, the frame, the queue effect -/
+theorem cact_frame {b b' : BState} {i : Nat} (h : CAct b i b') (hsh : b.g.shutting = false)
+    (hns : ∀ pc, b.cl[i]? = some pc → pc.shutPos = false) :
+    ∃ pc pc', b.cl[i]? = some pc ∧ CFrame b b' i pc' ∧ QEff b b' pc := by
+  cases h
+  case shutting r hpc hs => rw [hsh] at hs; cases hs
+  case shut pc hpc hs => rw [hns pc hpc] at hs; cases hs
+  case startMget ks iter hpc _ =>
+    obtain ⟨pc', hf, _⟩ := cframe_mgetNext (b := b) (b0 := b) (i := i) (ks := ks) (acc := []) (iter := iter)
+      rfl rfl rfl rfl rfl rfl rfl rfl
+    exact ⟨_, pc', hpc, hf, qeff_mgetNext rfl rfl rfl⟩
+  case mgetMiss k ks acc iter st hpc _ =>
+    obtain ⟨pc', hf, _⟩ := cframe_mgetNext (b := b) (b0 := { b with g := { b.g with stats := st } }) (i := i) (ks := ks)
+      (acc := acc ++ [none]) (iter := iter) rfl rfl rfl rfl rfl rfl rfl rfl
+    exact ⟨_, pc', hpc, hf, qeff_mgetNext rfl rfl rfl⟩
+  case mgetPool k v ks acc iter g1 hpc hg =>
+    obtain ⟨pc', hf, _⟩ := cframe_mgetNext (b := b) (b0 := { b with g := g1 }) (i := i) (ks := ks)
+      (acc := acc ++ [some v]) (iter := iter) rfl rfl rfl (pool_fields hg).1 (pool_fields hg).2.1 (pool_fields hg).2.2.1
+      (pool_fields hg).2.2.2.1 (pool_fields hg).2.2.2.2.1
+    exact ⟨_, pc', hpc, hf, qeff_mgetNext (pool_fields hg).2.2.2.2.2.1 (pool_fields hg).2.2.2.2.2.2.1
+      (pool_fields hg).2.2.2.2.2.2.2.1⟩
+  case upWNothing id uw old new hpc _ =>
+    obtain ⟨pc', hf, _⟩ := cframe_upAfterIndex (b := b) (b0 := b) (i := i) (id := id) (uw := uw)
+      rfl rfl rfl rfl rfl rfl rfl rfl
+    exact ⟨_, pc', hpc, hf, qeff_upAfterIndex rfl rfl rfl⟩
+  case upTtlPut id e uw hpc =>
+    obtain ⟨pc', hf, _⟩ := cframe_upAfterIndex (b := b) (b0 := { b with g := ttlPut b.g id e }) (i := i) (id := id) (uw := uw)
+      rfl rfl rfl rfl rfl rfl rfl rfl
+    exact ⟨_, pc', hpc, hf, qeff_upAfterIndex rfl rfl rfl⟩
+  case upTtlDelete id e uw hpc =>
+    obtain ⟨pc', hf, _⟩ := cframe_upAfterIndex (b := b) (b0 := { b with g := ttlDelete b.g id e }) (i := i) (id := id) (uw := uw)
+      rfl rfl rfl rfl rfl rfl rfl rfl
+    exact ⟨_, pc', hpc, hf, qeff_upAfterIndex rfl rfl rfl⟩
+  case upTtlInsert id new uw hpc =>
+    obtain ⟨pc', hf, _⟩ := cframe_upAfterIndex (b := b) (b0 := { b with g := ttlPut b.g id new }) (i := i) (id := id) (uw := uw)
+      rfl rfl rfl rfl rfl rfl rfl rfl
+    exact ⟨_, pc', hpc, hf, qeff_upAfterIndex rfl rfl rfl⟩
+  case getPool k v g1 hpc hg =>
+    obtain ⟨h1, h2, h3, h4, h5, h6, h7, h8, _, _⟩ := pool_fields hg
+    exact ⟨_, .idle, hpc, ⟨rfl, rfl, rfl, h1, h2, h3, h4, h5⟩, .none h6 h7 h8⟩
+  case refPool k v g1 hpc hg =>
+    obtain ⟨h1, h2, h3, h4, h5, h6, h7, h8, _, _⟩ := pool_fields hg
+    exact ⟨_, .idle, hpc, ⟨rfl, rfl, rfl, h1, h2, h3, h4, h5⟩, .none h6 h7 h8⟩
+  case putPresentHit k v w ttl hpc _ =>
+    exact ⟨_, .idle, hpc, ⟨rfl, rfl, rfl, rfl, rfl, rfl, rfl, rfl⟩, .spot _ rfl rfl rfl⟩
+  case idNext k v w ttl hpc =>
+    exact ⟨_, _, hpc, ⟨rfl, rfl, rfl, rfl, rfl, rfl, rfl, rfl⟩, .idNext k v w ttl rfl rfl rfl rfl⟩
+  case sendOk cmd hpc hw =>
+    exact ⟨_, .idle, hpc, ⟨rfl, rfl, rfl, rfl, rfl, rfl, rfl, rfl⟩, .send cmd rfl hw rfl rfl rfl⟩
+  all_goals exact ⟨_, _, ‹b.cl[i]? = some _›, ⟨rfl, rfl, rfl, rfl, rfl, rfl, rfl, rfl⟩, .none rfl rfl rfl⟩
 
 end B
 end Cached
